@@ -59,6 +59,18 @@ let () =
       (match UmlBlob.load_cdiagram (Cmds_vpp.db d) (str n) with None -> L [] | Some r -> L [vrdiagram r]) | _ -> failwith "arity");
   register "ub_adaptor" (function [d; n] ->
       (match UmlBlob.adaptor (Cmds_vpp.db d) (str n) with None -> L [] | Some c -> L [vcdiagram c]) | _ -> failwith "arity");
+  register "ub_adaptor_incl" (function [d; n] ->
+      (match UmlIncl.adaptor_incl (Cmds_vpp.db d) (str n) with
+       | None -> L []
+       | Some i ->
+           let ty t = L [S t.UmlIncl.it_type; S t.UmlIncl.it_mod; S t.UmlIncl.it_mult] in
+           let op o = L [S o.UmlIncl.io_ret; S o.UmlIncl.io_retmod; L (List.map ty o.UmlIncl.io_params)] in
+           L [L [L (List.map (fun c -> L [S c.UmlIncl.ic_id; S c.UmlIncl.ic_name; S c.UmlIncl.ic_ns; vbool c.UmlIncl.ic_pure;
+                                          L (List.map ty c.UmlIncl.ic_attrs); L (List.map op c.UmlIncl.ic_ops)]) i.UmlIncl.i_classes);
+                 L (List.map (fun x -> L [S x.UmlIncl.ii_to; S x.UmlIncl.ii_from_id; S x.UmlIncl.ii_from; vbool x.UmlIncl.ii_real]) i.UmlIncl.i_inhs);
+                 L (List.map (fun x -> L [S x.UmlIncl.ix_type; S x.UmlIncl.ix_from_id; S x.UmlIncl.ix_from; S x.UmlIncl.ix_to_id; S x.UmlIncl.ix_to;
+                                          S x.UmlIncl.ix_from_mult; S x.UmlIncl.ix_to_mult]) i.UmlIncl.i_assocs)];
+              vbool (UmlIncl.incl_names_ok i)]) | _ -> failwith "arity");
   register "ub_adaptor_cs" (function [d; n] ->
       (match UmlBlob.adaptor_cs (Cmds_vpp.db d) (str n) with None -> L [] | Some c -> L [vcdiagram c]) | _ -> failwith "arity");
   register "ub_type_and_name_cs" (function [t; m; mu; n] ->
